@@ -1,3 +1,56 @@
-From VZ Require Import Base.Prelude Model.Service Model.Conc.
-Theorem C04_placeholder : True. Proof. exact I. Qed.
-Print Assumptions C04_placeholder.
+(* C04 — concurrent clients: every interleaving is equivalent to a serial order.  Statements only.
+   run_sched fuel sched (start s rpcs): the RPCs run as threads from state s; scheduling points are datastore primitive
+   calls and lock acquisitions; `sched` is ANY list of thread ids (a disabled choice falls back to the first enabled). *)
+From VZ Require Import Base.Prelude Model.Metadata Model.Service Model.ServiceEq Model.Conc
+                       Proofs.ConcP Proofs.DeadlockP.
+
+(* no two trials with one id: for any number of concurrent calls, any schedule, any prefix *)
+Theorem C04_unique_ids_all_interleavings : forall prefix rpcs fuel sched,
+  ids_ok (c_state (run_sched fuel sched (start (run_all prefix init_state) rpcs))).
+Proof. intros. apply run_sched_ids_ok. cbn [start c_state]. apply run_all_ids_ok. apply init_ids_ok. Qed.
+Print Assumptions C04_unique_ids_all_interleavings.
+
+(* the lock discipline of every handler: the operation lock is taken with nothing held, a study/owner lock with nothing
+   or only the operation lock held, releases are LIFO, a handler returns holding nothing *)
+Theorem C04_lock_discipline : forall r, wf [] (handler r).
+Proof. exact wf_handler. Qed.
+Print Assumptions C04_lock_discipline.
+
+(* no deadlock: in every configuration reachable by any schedule of any number of calls, if a call is unfinished then
+   some thread can take a step *)
+Theorem C04_no_deadlock : forall s rpcs fuel sched,
+  let c := run_sched fuel sched (start s rpcs) in all_finished c = false -> first_enabled c <> None.
+Proof. exact no_deadlock. Qed.
+Print Assumptions C04_no_deadlock.
+
+(* FULL statement: every complete interleaving ends like some serial order (same results, same stored state).
+   Refuted on the model of the code as it is: the immutability guard is checked before the study lock is taken, so an
+   UpdateMetadata that passed the guard is applied after a concurrent SetStudyState(INACTIVE) whose reply does not
+   contain it -- no serial order produces these two replies. *)
+Definition serial_like (prefix rpcs : list (rpc * pythia_out)) (sched : list nat) : bool :=
+  let s := run_all prefix init_state in
+  let fin := run_sched 400 sched (start s rpcs) in
+  let same (order : list nat) :=
+    let fin' := run_sched 400 order (start s rpcs) in
+    list_eqb (opt_eqb outcome_eqb) (results fin) (results fin') &&
+    snapshot_eqb (snapshot CLIENTS OWNERS (c_state fin)) (snapshot CLIENTS OWNERS (c_state fin')) in
+  (* the two serial orders of a pair: all of thread 0 first, or all of thread 1 first *)
+  same (repeat 0 60) || same (repeat 1 60).
+Definition C04_full_pairs : Prop := forall prefix a b sched, serial_like prefix [a; b] sched = true.
+
+Definition toctou_prefix : list (rpc * pythia_out) :=
+  [(CreateStudy 1 1 false (mkS SS_ACTIVE [(1%N, true)] []), PFail EOther)].
+Definition toctou_a : rpc * pythia_out := (UpdateMetadata (1, 1)%N [(([], [117%N]), (0%N, [97%N]))] [], PFail EOther).
+Definition toctou_b : rpc * pythia_out := (SetStudyState (1, 1)%N SS_INACTIVE, PFail EOther).
+
+Theorem C04_full_refuted : ~ C04_full_pairs.
+Proof.
+  intros H. specialize (H toctou_prefix toctou_a toctou_b [1; 0; 1; 1; 0; 0]). vm_compute in H. discriminate.
+Qed.
+Print Assumptions C04_full_refuted.
+
+(* the same pair IS serial-like under schedules that do not split guard and lock (sanity of the witness) *)
+Example C04_witness_sanity :
+  serial_like toctou_prefix [toctou_a; toctou_b] [0; 0; 0; 1; 1; 1] = true /\
+  serial_like toctou_prefix [toctou_a; toctou_b] [1; 1; 1; 0; 0; 0] = true.
+Proof. split; vm_compute; reflexivity. Qed.
